@@ -493,7 +493,10 @@ func coldConcurrent(op, modelsFile string) error {
 	if len(objs) == 0 {
 		return fmt.Errorf("no object for operation %s", op)
 	}
-	const g = 8
+	g := 8 // goroutines: every object of the kind takes part, at least eight calls
+	if len(objs) > g {
+		g = len(objs)
+	}
 	results := make([]string, g)
 	names := make([]string, g)
 	start := make(chan struct{})
